@@ -18,7 +18,8 @@
 //! After every op: `has <bits>` = Interface::has_multicast_group for each probe address.
 //! A panic prints `panic` and ends the case.
 //!
-//! Sub-commands: gen <seed> <n> <tier> | run | oracle <seed> <n> <tier> | oracle-replay
+//! Sub-commands: gen <seed> <n> <tier> | run | oracle[-c10|-c11|-c03] <seed> <n> <tier> |
+//! oracle-replay[-c10|-c11|-c03]  (the suffixed forms report only the classes of that property)
 use smoltcp::iface::{Config, Interface, SocketHandle, SocketSet, SocketStorage};
 use smoltcp::phy::Medium;
 use smoltcp::socket::udp;
@@ -700,7 +701,7 @@ impl Gen {
         t
     }
 
-    fn op(&mut self, oracle: bool, medium: &str) -> String {
+    fn op(&mut self, _oracle: bool, medium: &str) -> String {
         let v4_ok = medium != "154";
         let r = self.rng.below(100);
         if r < 22 {
@@ -1162,6 +1163,25 @@ fn check_tx(t: &Tx, sh: &Shadow, medium: Medium, fails: &mut Vec<String>) {
     }
 }
 
+/// which property an oracle class belongs to (sub-commands oracle-c10 / -c11 / -c03 report only theirs)
+fn prop_of(class: &str) -> &'static str {
+    match class {
+        "mcast-report-src-illegal" | "mcast-report-dst-illegal" | "mcast-report-hop-limit"
+        | "mcast-mld-without-router-alert" | "mcast-unexpected-frame" => "c10",
+        "mcast-unjoined-group-delivered" | "mcast-joined-group-not-delivered" | "mcast-multicast-datagram-answered"
+        | "mcast-has-group-mismatch" | "mcast-report-for-left-group" | "mcast-leave-for-joined-group"
+        | "mcast-join-accepted-non-multicast" | "mcast-join-refused-multicast" | "mcast-query-answered-at-ingress" => "c11",
+        _ => "c03",
+    }
+}
+
+fn filter_fails(fails: Vec<String>, only: Option<&str>) -> Vec<String> {
+    match only {
+        None => fails,
+        Some(p) => fails.into_iter().filter(|f| prop_of(f.split("::").next().unwrap().trim()) == p).collect(),
+    }
+}
+
 fn print_fail(c: &Case, fails: &[String], w: &mut dyn Write) {
     if fails.is_empty() {
         return;
@@ -1199,7 +1219,8 @@ fn main() {
                 run_case(c, &mut w);
             }
         }
-        "oracle" => {
+        "oracle" | "oracle-c10" | "oracle-c11" | "oracle-c03" => {
+            let only = sub.strip_prefix("oracle-");
             let seed: u64 = args[2].parse().unwrap();
             let n: usize = args[3].parse().unwrap();
             let tier = args.get(4).map(|s| s.as_str()).unwrap_or("quick");
@@ -1209,6 +1230,7 @@ fn main() {
                 let c = gen_case(seed, i, tier, true);
                 let mut fails = vec![];
                 oracle_case(&c, &mut fails, &mut stats);
+                let fails = filter_fails(fails, only);
                 if !fails.is_empty() {
                     nfail += 1;
                     let mut buf: Vec<u8> = vec![];
@@ -1220,12 +1242,14 @@ fn main() {
             let js: Vec<String> = stats.iter().map(|(k, v)| format!("\"{}\": {}", k, v)).collect();
             println!("STATS {{{}}}", js.join(", "));
         }
-        "oracle-replay" => {
+        "oracle-replay" | "oracle-replay-c10" | "oracle-replay-c11" | "oracle-replay-c03" => {
+            let only = sub.strip_prefix("oracle-replay-");
             let cases = stdin_cases();
             let mut stats = std::collections::BTreeMap::new();
             for c in &cases {
                 let mut fails = vec![];
                 oracle_case(c, &mut fails, &mut stats);
+                let fails = filter_fails(fails, only);
                 let mut buf: Vec<u8> = vec![];
                 print_fail(c, &fails, &mut buf);
                 print!("{}", String::from_utf8(buf).unwrap());
